@@ -58,7 +58,9 @@ func (c *Ctx) Unclassified(key, pos, msg string) { c.add(StUnclassified, key, po
 func (c *Ctx) Lost(key, msg string) { c.add(StLost, key, "", msg, nil) }
 
 // Note adds a free-text line to the evidence explanation.
-func (c *Ctx) Note(format string, a ...any) { c.Notes = append(c.Notes, c.Rule+": "+fmt.Sprintf(format, a...)) }
+func (c *Ctx) Note(format string, a ...any) {
+	c.Notes = append(c.Notes, c.Rule+": "+fmt.Sprintf(format, a...))
+}
 
 // Floor fails with coverage-lost if the measured instance count is below the hand-confirmed floor.
 func (c *Ctx) Floor(what string, got, min int) {
